@@ -104,7 +104,7 @@ def gen_variant(r, trig):
         headers.append(hline(r, 'Content-Length', r.pick(['abc', 'NaN', 'x-y', '99999999999999999999999', '  ', 'ten'])))
         need = F_REQUEST_INVALID
     elif trig == 'bad_te':
-        headers.append(hline(r, 'Transfer-Encoding', r.pick(['gzip', 'identity', 'chunke', 'chunkedx', 'xchunked', 'chunked;q=1' if False else 'deflate', 'foo, bar'])))
+        headers.append(hline(r, 'Transfer-Encoding', r.pick(['gzip', 'identity', 'chunke', 'chunkedx', 'xchunked', 'deflate', 'foo, bar', 'chunked gzip', 'Chunked\tidentity', 'chunked ;ext=1', 'gzip, CHUNKED  deflate', 'chunked x', 'chunked  y, z', 'chunk ed', 'chunked\tx'])))
         need = F_REQUEST_INVALID
     elif trig in ('host_mismatch', 'host_mismatch_port'):
         if trig == 'host_mismatch':
